@@ -267,6 +267,16 @@ theorem optimizeRewireNodes_premise (cks : List CK) (ins : Ins) (rs : List Range
       (cks.getD idx .other = .one → ∃ w, ins.getD idx none = some (List.replicate w .t) ∧ off + r.subwidth ≤ w)) :
     ConstOK cks ins rs := constOK_of_const cks ins rs h
 
+/-- `removeNoOps` for rewire nodes, the test itself: `rewireIsNoOp` models `Node_Rewire::isNoOp()` (replayed against the real function in
+    the same stream, `what=rewire-isNoOp`); whenever it answers true the node computes exactly the value at its input 0, whatever
+    else is connected — so `bypassOutputToInput(0, 0)` changes no value. -/
+theorem removeNoOps_rewire_function (nin w : Nat) (sameKind : Bool) (rs : List Range) (v : BV4) (rest : Ins) (hv : v.length = w)
+    (h : rewireIsNoOp nin (some w) sameKind rs = true) : evalRewire rs (some v :: rest) = v :=
+  rewireIsNoOp_sound nin w sameKind rs v rest hv h
+
+example : rewireIsNoOp 2 (some 5) true [⟨2, .input 0 0⟩, ⟨0, .input 0 2⟩, ⟨3, .input 0 2⟩] = true ∧
+          rewireIsNoOp 2 (some 5) true [⟨2, .input 0 0⟩, ⟨3, .input 0 3⟩] = false := by decide
+
 -- inputs 0 and 2 share driver 7, input 1 is an all-zero constant: the constant folds and merges with the zero range, one input remains
 -- (the two ranges that now continue each other on the shared input are not merged: the sweep runs before the inputs are renumbered)
 example : rewireOptimize [.other, .zero, .other] [some 7, some 3, some 7] [⟨2, .input 0 0⟩, ⟨0, .one⟩, ⟨3, .input 2 2⟩, ⟨2, .input 1 1⟩, ⟨1, .zero⟩]
